@@ -80,6 +80,7 @@ def gen(tier, rng):
     from . import C16 as _c16
     yield _c16.boundary_ni_script(rng.fork("ni"), "ni-boundary")
     # "never both complete … with different … ciphers": cipher lists in different orders with equal speeds at the top, both initiators
+    yield initgen.equal_salt_script(rng.fork("salt"), "equal-salt")       # also the simultaneous open of two attempts that drew the same salt
     for s in initgen.c06_tie_scripts(rng.fork("ties"), thorough):
         yield s
     # node level: adversarial network followed by a reliable phase of peer timeout + handshake retry horizon
